@@ -26,6 +26,11 @@ pub fn to_idna(domain_name: &str) -> Result<String, error::Error> {
 	let mut idna_parts = vec![];
 	let parts: Vec<&str> = domain_name.split('.').collect();
 	for name in parts.iter() {
+		// RFC 1035, section 2.3.4: a label is 63 octets or less. This also keeps the punycode
+		// encoder far away from its arithmetic limits.
+		if name.chars().count() > 63 {
+			return Err(error::Error::from("IDNA encoding failed: label too long."));
+		}
 		let raw_name = name.to_lowercase();
 		let idna_name = if name.is_ascii() {
 			raw_name
